@@ -472,7 +472,7 @@ func (u *Unit) specCall(x *ast.CallExpr, env *Env, sc *specCtx) Value {
 	intT := types.Typ[types.Int]
 	boolT := types.Typ[types.Bool]
 	fname := ""
-	if id, ok := x.Fun.(*ast.Ident); ok {
+	if id, ok := unparen(x.Fun).(*ast.Ident); ok {
 		fname = id.Name
 	}
 	switch fname {
@@ -915,6 +915,23 @@ func (u *Unit) specCall(x *ast.CallExpr, env *Env, sc *specCtx) Value {
 			}
 			name, rs, _ := u.applyName(sig, 0)
 			return Value{App(name, rs, ts...), sig.Results().At(0).Type()}
+		}
+	}
+	if fname == "" {
+		// application of a function-valued expression (a field, an element)
+		if fv := u.sv(x.Fun, env, sc); fv.Sort == SFn && fv.Ty != nil {
+			if sig, ok := types.Unalias(fv.Ty).Underlying().(*types.Signature); ok && sig.Results().Len() > 0 {
+				args := u.specArgs(x, env, sc)
+				ts := []Term{fv.Term}
+				for i, a := range args {
+					if i < sig.Params().Len() {
+						a = u.convert(a, sig.Params().At(i).Type(), env)
+					}
+					ts = append(ts, a.Term)
+				}
+				name, rs, _ := u.applyName(sig, 0)
+				return Value{App(name, rs, ts...), sig.Results().At(0).Type()}
+			}
 		}
 	}
 	unsup("unknown spec function %q", nodeString(token.NewFileSet(), x.Fun))
